@@ -110,4 +110,19 @@ PROPS = {
         suites=[dict(driver="lib", suite="shimlife"), dict(driver="lib", suite="shimrace", race=True)],
         assumptions=["Go select picks some ready case; a send on a full channel blocks", "the injected browser shim keeps one data post and one poll outstanding (not required for the no-panic/answers theorems)"],
     ),
+    "C02": dict(
+        technique="Lean 4 theorems on the regenerated hop-by-hop predicate and request-header filter of the proxy and the regenerated header edits of the agent (goextract T2), composed with standard-library stages constrained by a named specification; end-to-end runs of raw client bytes through the real proxy binary and real agent code to a recording raw backend",
+        level_text="Proof for every header map that the proxy's filter removes exactly the RFC 7230 hop-by-hop fields (table proved equal to the specification list, case-insensitively) and keeps every other field's values in order; proof that the composition proxy filter -> wire -> agent edits -> ReverseProxy preserves method, request target, Host, body and every end-to-end header the client sent, given the stated clauses for the standard-library stages; hop-by-hop fields do not reach the backend. Filter and edits are regenerated from server.go / agent.go on every run.",
+        level_note=STD_NOTE + "Partial: Go's HTTP server parse, Request.Write, ReadRequest, ReverseProxy and transport are specified (StdReqSpec) and validated end to end on every run, not proved. Interpretations: fields nominated by Connection: are not treated as hop-by-hop by the stand-alone proxy; X-Forwarded-For appending and Accept-Encoding/User-Agent defaults are 'fields the path may add'.",
+        suites=[dict(driver="lib", suite="reqpath", bins={"SERVER": "server", "AGENT": "agent"}, race="thorough")],
+        assumptions=["StdReqSpec: each standard-library stage keeps method, target, Host, body and the values of every non-hop, non-framing field, and adds fields only where absent"],
+    ),
+    "C03": dict(
+        technique="Lean 4 theorems on a sequential model of streamingResponseWriter built from its regenerated header loops, interim-status test and map-sharing facts (goextract T2/T1), and on the regenerated response copy of the proxy, composed with specified standard-library wire stages; differential run of the real writer; end-to-end runs of scripted wire responses through real agent code and the real proxy binary under the race detector",
+        level_text="Proof for every handler script (any header edits, interim 1xx codes, any number of declared trailers - one per value or comma-joined - undeclared Trailer:-prefixed trailers, any body chunking): the emitted status is the first final status, the body is the concatenation of the writes, every end-to-end header present at head time is forwarded with its values in order, hop-by-hop fields are dropped from headers and trailers, declared and undeclared trailers are delivered as trailers with the handler's values; proof that the proxy's copy keeps non-hop headers and passes trailers on; composed end-to-end statement under StdRespSpec. The response owning private header/trailer maps (no sharing with the handler goroutine) is a regenerated fact.",
+        level_note=STD_NOTE + "Partial: Response.Write, chunked coding, ReadResponse, ReverseProxy and the Go server's trailer handling are specified (StdRespSpec) and validated end to end, not proved; schedule independence rests on the no-shared-maps facts plus race-detector runs (the two-goroutine interleaving is not modelled as an LTS). Preconditions: handlers keep canonical header keys (ReverseProxy does); no zero-length first write.",
+        suites=[dict(driver="lib", suite="srw"),
+                dict(driver="lib", suite="resppath", bins={"SERVER": "server", "AGENT": "agent"}, race=True)],
+        assumptions=["StdRespSpec: the wire stages keep status, body, trailer values and the values of every non-framing header field", "httputil.ReverseProxy stores canonical header keys and never issues a zero-length first write"],
+    ),
 }
